@@ -301,8 +301,8 @@ example : bindStk ["alpha"] [0, 1] [⟨"self", true, .none, true, false, true, .
 /-- Non-vacuity: `aten::add.Tensor(Tensor self, Tensor other, *, Scalar alpha=1)` against
 `aten_add(self, other, alpha: float = 1.0)`; both admissible calls conform. -/
 example :
-    let a : AtenSchema := ⟨[⟨"self", .tensor, false, false, false⟩, ⟨"other", .tensor, false, false, false⟩],
-                           [⟨"alpha", .scalar, false, false, true⟩]⟩
+    let a : AtenSchema := ⟨[⟨"self", .tensor, false, false, false, false⟩, ⟨"other", .tensor, false, false, false, false⟩],
+                           [⟨"alpha", .scalar, false, false, true, false⟩]⟩
     let s : OsSig := [⟨"self", true, .none, true, false, true, .otherPlain, false⟩, ⟨"other", true, .none, true, false, true, .otherPlain, false⟩,
                       ⟨"alpha", false, .float, false, false, true, .base .float, true⟩]
     bindsOk .traced a s = true ∧ bindsOk .scripted a s = true ∧
@@ -330,8 +330,8 @@ bool keepdim=False)` against `aten_amax(self, dim: INT64, keepdim: bool = False)
 omitted; the row as it was before `/repo` d441e93), and the binder indeed raises on the conforming call
 `amax(x)`. -/
 theorem bindsOk_rejects_amax :
-    let a : AtenSchema := ⟨[⟨"self", .tensor, false, false, false⟩, ⟨"dim", .int, true, false, true⟩,
-                            ⟨"keepdim", .bool, false, false, true⟩], []⟩
+    let a : AtenSchema := ⟨[⟨"self", .tensor, false, false, false, false⟩, ⟨"dim", .int, true, false, true, false⟩,
+                            ⟨"keepdim", .bool, false, false, true, false⟩], []⟩
     let s : OsSig := [⟨"self", true, .none, true, false, true, .otherPlain, false⟩, ⟨"dim", true, .none, true, false, true, .otherPlain, false⟩,
                       ⟨"keepdim", false, .int, false, false, true, .base .int, true⟩]
     failing .scripted a s = [.requiredBound] ∧ bind .scripted s ⟨1, []⟩ = .error .missing := by
@@ -523,7 +523,7 @@ theorem bind_ok_sound_by_keyword (m : Mode) (a : AtenSchema) (s : OsSig) (h : bi
 /-- Non-vacuity: `prims::convert_element_type(Tensor a, ScalarType dtype)` called as the exporter really
 sees it, `convert_element_type(x, dtype=…)`: in the wide model, not in the narrow one. -/
 example :
-    let a : AtenSchema := ⟨[⟨"a", .tensor, false, false, false⟩, ⟨"dtype", .dtype, false, false, false⟩], []⟩
+    let a : AtenSchema := ⟨[⟨"a", .tensor, false, false, false, false⟩, ⟨"dtype", .dtype, false, false, false, false⟩], []⟩
     let s : OsSig := [⟨"a", true, .none, true, false, true, .otherPlain, false⟩,
                       ⟨"dtype", false, .int, true, false, true, .base .int, false⟩]
     bindsOkK .traced a s = true ∧ bind .traced s ⟨1, ["dtype"]⟩ = .ok [some (.pos 0), some (.kw "dtype")] ∧
@@ -753,8 +753,8 @@ theorem bindsOk_iff (m : Mode) (a : AtenSchema) (s : OsSig)
 /-- Non-vacuity of `bindsOk_tight`: the `aten::amax` row as it was before `/repo` d441e93 satisfies the hypotheses, is
 rejected, and its minimal call `amax(x)` indeed raises in the binder. -/
 example :
-    let a : AtenSchema := ⟨[⟨"self", .tensor, false, false, false⟩, ⟨"dim", .int, true, false, true⟩,
-                            ⟨"keepdim", .bool, false, false, true⟩], []⟩
+    let a : AtenSchema := ⟨[⟨"self", .tensor, false, false, false, false⟩, ⟨"dim", .int, true, false, true, false⟩,
+                            ⟨"keepdim", .bool, false, false, true, false⟩], []⟩
     let s : OsSig := [⟨"self", true, .none, true, false, true, .otherPlain, false⟩, ⟨"dim", true, .none, true, false, true, .otherPlain, false⟩,
                       ⟨"keepdim", false, .int, false, false, true, .base .int, true⟩]
     clauseOk .scripted a s .paramsModelled = true ∧ nodupS (s.map (·.name)) = true ∧
@@ -1186,6 +1186,42 @@ example : classify (.base .bool) = (false, .int) ∧ classify (.seqOf .int) = (f
     sigFaithful [⟨"dim", false, .ints, true, false, true, .seqOf .int, false⟩] = true ∧
     sigFaithful [⟨"dim", true, .none, true, false, true, .seqOf .int, false⟩] = false := by decide
 
+
+/-- No open finding waives a kind mix-up or a wrong integer-only mark. -/
+theorem waived_no_complexName (q : String) : Defect.complexName ∉ waived q ∧ Defect.schemaFlag ∉ waived q := by
+  unfold waived
+  split <;> decide
+
+/-- **`registry_kinds_ok`**: no function written for complex inputs (`…_complex`, the operator itself not being
+called `…complex`) owns a (name, real) pair, and a `Scalar` is treated as an integer only for the bitwise /
+shift operators — for every row of the registry. -/
+theorem registry_kinds_ok : ∀ e ∈ registry, e.complexNameOk = true ∧ e.schemaFlagsOk = true := by
+  intro e he
+  have h := registry_within e he
+  unfold rowWithin at h
+  simp only [Bool.and_eq_true, List.all_eq_true] at h
+  constructor
+  · cases hn : e.complexNameOk with
+    | true => rfl
+    | false =>
+      exfalso
+      have hmem : Defect.complexName ∈ e.defects := by unfold Entry.defects; simp [hn]
+      exact (waived_no_complexName e.qualified).1 (List.contains_iff_mem.mp (h.1 _ hmem))
+  · cases hn : e.schemaFlagsOk with
+    | true => rfl
+    | false =>
+      exfalso
+      have hmem : Defect.schemaFlag ∈ e.defects := by unfold Entry.defects; simp [hn]
+      exact (waived_no_complexName e.qualified).2 (List.contains_iff_mem.mp (h.1 _ hmem))
+
+/-- A float-capable `Scalar` is not accepted by an INT attribute (`aten::histc(…, Scalar min, Scalar max)` on
+`min: int`), an integer-only one is (`aten::bitwise_and.Scalar`). -/
+example :
+    attrAccepts .int ⟨"min", .scalar, false, false, true, false⟩ = false ∧
+    attrAccepts .float ⟨"min", .scalar, false, false, true, false⟩ = true ∧
+    attrAccepts .int ⟨"other", .scalar, false, false, false, true⟩ = true ∧
+    intOnlyName (codes "aten::bitwise_and.Scalar") = true ∧ intOnlyName (codes "aten::histc") = false := by decide
+
 /-- **`registry_resolves_uniquely`**: two rows whose names the exporter resolves to the same
 (namespace, operator, overload) carry the same name — together with `registry_unique`, each PyTorch
 overload and kind (real/complex) is served by exactly one registered function. -/
@@ -1209,12 +1245,12 @@ raises on the maximal call. -/
 theorem registry_binds_full_refuted_snapshot_roi_pool :
     let e : Entry := ⟨[116, 111, 114, 99, 104, 118, 105, 115, 105, 111, 110, 58, 58, 114, 111, 105, 95, 112, 111, 111, 108],
       false, .traced, .resolved,
-      ⟨[⟨"input", .tensor, false, false, false⟩, ⟨"rois", .tensor, false, false, false⟩,
-        ⟨"spatial_scale", .float, false, false, false⟩, ⟨"pooled_height", .symint, false, false, false⟩,
-        ⟨"pooled_width", .symint, false, false, false⟩], []⟩,
+      ⟨[⟨"input", .tensor, false, false, false, false⟩, ⟨"rois", .tensor, false, false, false, false⟩,
+        ⟨"spatial_scale", .float, false, false, false, false⟩, ⟨"pooled_height", .symint, false, false, false, false⟩,
+        ⟨"pooled_width", .symint, false, false, false, false⟩], []⟩,
       [⟨"input", true, .none, true, false, true, .missing, false⟩, ⟨"boxes", true, .none, true, false, true, .missing, false⟩,
        ⟨"output_size", false, .ints, true, false, true, .seqOf .int, false⟩,
-       ⟨"spatial_scale", false, .float, false, false, true, .base .float, true⟩]⟩
+       ⟨"spatial_scale", false, .float, false, false, true, .base .float, true⟩], []⟩
     e.ok = false ∧ maxCall e.aten = ⟨5, []⟩ ∧ bind e.mode e.sig (maxCall e.aten) = .error .tooMany := by
   decide
 
@@ -1222,10 +1258,10 @@ theorem registry_binds_full_refuted_snapshot_roi_pool :
 the real exporter: `torch.onnx.export` of `torch.amax(x)` raised). -/
 theorem registry_binds_full_refuted_snapshot :
     let e : Entry := ⟨[97, 116, 101, 110, 58, 58, 97, 109, 97, 120], false, .scripted, .resolved,
-      ⟨[⟨"self", .tensor, false, false, false⟩, ⟨"dim", .int, true, false, true⟩,
-        ⟨"keepdim", .bool, false, false, true⟩], []⟩,
+      ⟨[⟨"self", .tensor, false, false, false, false⟩, ⟨"dim", .int, true, false, true, false⟩,
+        ⟨"keepdim", .bool, false, false, true, false⟩], []⟩,
       [⟨"self", true, .none, true, false, true, .otherPlain, false⟩, ⟨"dim", true, .none, true, false, true, .otherPlain, false⟩,
-       ⟨"keepdim", false, .int, false, false, true, .base .int, true⟩]⟩
+       ⟨"keepdim", false, .int, false, false, true, .base .int, true⟩], []⟩
     e.ok = false ∧ bind e.mode e.sig ⟨1, []⟩ = .error .missing := by
   decide
 
